@@ -101,6 +101,14 @@ theorem cache_preserves_spec (inp : Input) (log : List Url) (h : Spec inp log) :
     intro u hu
     exact h u (cacheFilter_sub inp log [] u hu)
 
+/-- "Is a document read at most once per location?"  Not by the loader (it reads before it consults its document
+cache, and re-reads for the raw drill: see the example with the root read twice below) — but behind `URIMapCache` a
+location that is cached (any location except a relative file path) and readable is fetched at most once, whatever the
+loader does. -/
+theorem cache_fetches_once (inp : Input) (log : List Url) (u : Url) (hc : u.cacheable = true)
+    (hs : (storeAt inp u).isSome = true) : (cacheFilter inp [] log).count u ≤ 1 :=
+  cacheFilter_once inp u hc hs log []
+
 /-- With the switch off, nothing but the root reaches the wrapped reader either. -/
 theorem switch_off_cached_reads_root_only (inp : Input) (fuel : Nat) (hoff : inp.allowed = false) :
     ∀ u ∈ cacheFilter inp [] (load inp fuel).1.log, some u = inp.root :=
